@@ -64,11 +64,45 @@ def check_duals(ix, rep, hs, rule='R-EXPL-MIRROR'):
         rep.analysed(fa)
         rep.analysed(fb)
         rep.unit(fa.module.rel)
+        slot = '%s~%s' % (a, b)
+        # helpers that do not look at the signal's values are interval transformers: compared as sets of samples, for every request, bound and
+        # length at once (linear arithmetic) -- however they are written
+        from sa.rules import ivshift as _iv
+        reads_values = lambda fn_: any(isinstance(x, ast.Compare) and any(isinstance(y, ast.Subscript) and isinstance(y.value, ast.Name) and y.value.id == fn_.args.args[0].arg
+                                                                            for y in ast.walk(x)) for x in ast.walk(fn_))
+        if not reads_values(fa.node) and not reads_values(fb.node):
+            try:
+                dja, djb = _iv.read_helper(fa.node), _iv.read_helper(fb.node)
+                diffset = _iv.same_set(dja, djb, timed=len(fa.node.args.args) == 4)
+                if diffset is None:
+                    rep.ok(rule, fb.module.rel, 'explain_%s~explain_%s' % (a, b), slot, 'explain_%s and explain_%s select the same samples for every request (decided as interval transformers)' % (b, a), fb.node.lineno)
+                else:
+                    rep.fail(rule, fb.module.rel, 'explain_%s~explain_%s' % (a, b), slot, 'explaining a violated %s must select the samples explaining a satisfied %s selects; %s selects more for some '
+                             'request' % (b.split('_', 1)[1], a.split('_', 1)[1], 'explain_' + (a if diffset == 'first-has-more' else b)), fb.node.lineno)
+                continue
+            except _iv.Unknown:
+                pass
+        # bounded helpers that scan a window for runs of one sign: the same window, the opposite sign
+        if len(fa.node.args.args) == 4 and len(fb.node.args.args) == 4:
+            ka, kb = run_extraction(fa.node), run_extraction(fb.node)
+            if ka is not None and kb is not None:
+                try:
+                    wa, wb = _iv.read_scan_window(fa.node), _iv.read_scan_window(fb.node)
+                    dw = _iv.same_set(wa, wb, timed=True)
+                    if dw is None and ka != kb:
+                        rep.ok(rule, fb.module.rel, 'explain_%s~explain_%s' % (a, b), slot, 'both scan the same window of the operand and extract the runs of opposite sign', fb.node.lineno)
+                    elif dw is not None:
+                        rep.fail(rule, fb.module.rel, 'explain_%s~explain_%s' % (a, b), slot, 'explain_%s and explain_%s scan different windows of the operand for some request' % (a, b), fb.node.lineno)
+                    else:
+                        rep.fail(rule, fb.module.rel, 'explain_%s~explain_%s' % (a, b), slot, 'explain_%s and explain_%s extract runs of the same sign: one of them explains a violated operator '
+                                 'with the samples at which its operand holds' % (a, b), fb.node.lineno)
+                    continue
+                except _iv.Unknown:
+                    pass
         na = copy.deepcopy(fa.node)
         na = FlipSign().visit(na)
         da, ta, _ = norm.normal_form(na)
         db, tb, _ = norm.normal_form(fb.node)
-        slot = '%s~%s' % (a, b)
         if da == db:
             rep.ok(rule, fb.module.rel, 'explain_%s~explain_%s' % (a, b), slot, 'explain_%s is explain_%s with the sign test flipped' % (b, a), fb.node.lineno)
         else:
@@ -93,6 +127,24 @@ def check_direction(ix, rep, hs, rule='R-EXPL-DIR'):
         rep.unit(g.module.rel)
         params = [a.arg for a in g.node.args.args]
         a_, b_ = (params[2], params[3]) if len(params) >= 4 else (None, None)
+        if len(params) == 4:
+            # bounded helpers: the samples selected (helpers that do not look at values) or scanned (helpers that do) for a request are the samples
+            # the operator reads -- decided for every request, bound and length, whatever the locals are called
+            from sa.rules import ivshift as _iv
+            try:
+                looks = any(isinstance(x_, ast.Compare) and any(isinstance(y, ast.Subscript) and isinstance(y.value, ast.Name) and y.value.id == params[0] for y in ast.walk(x_))
+                            for x_ in ast.walk(g.node))
+                dj_ = _iv.read_scan_window(g.node) if looks else _iv.read_helper(g.node)
+                dset = _iv.same_set(dj_, _iv.timed_reference(direction), timed=True)
+                slot = 'direction:%s' % name
+                if dset is None:
+                    rep.ok(rule, g.module.rel, g.qual, slot, 'for the request [b,e] the helper %s exactly the samples a %s operator over [a,b] reads' % ('scans' if looks else 'selects', direction), g.node.lineno)
+                else:
+                    rep.fail(rule, g.module.rel, g.qual, slot, 'for some request the helper %s %s than the samples a %s operator over [a,b] reads ([begin%sb, end%sa] clipped to the signal)'
+                             % ('scans' if looks else 'selects', 'more' if dset == 'first-has-more' else 'fewer', direction, '-' if direction == 'past' else '+a .. +', '-' if direction == 'past' else ''), g.node.lineno)
+                continue
+            except _iv.Unknown:
+                pass
         shifts = []
         for x in ast.walk(g.node):
             if isinstance(x, ast.BinOp) and isinstance(x.op, (ast.Add, ast.Sub)) and isinstance(x.left, ast.Name) and x.left.id in ('begin', 'end'):
@@ -162,6 +214,21 @@ def check_all_intervals(ix, rep, hs, rule='R-EXPL-ALL'):
         which = ast.unparse(idx[0].slice).replace(' ', '')
         first = which == '0'
         last = which in ('-1', 'len(%s)-1' % ip)
+        # decided on the helper read as an interval transformer, when it can be read so: what it selects for any other request is contained in
+        # what it selects for the one it looks at
+        if first or last:
+            from sa.rules import ivshift as _iv
+            try:
+                dj_ = _iv.read_helper(g.node)
+                if _iv.pick_covers_all(dj_, 'last' if last else 'first', timed=len(g.node.args.args) == 4):
+                    rep.ok(rule, g.module.rel, g.qual, slot, 'looks at the %s requested interval only; what any other request needs is contained in what that one selects' % ('last' if last else 'first'), g.node.lineno)
+                else:
+                    rep.fail(rule, g.module.rel, g.qual, slot, 'only the %s of the requested intervals is honoured, and what an %s request needs is not contained in what that one selects: when '
+                             'the parent asks for several disjoint intervals the others are dropped and the reported samples are no sufficient cause'
+                             % ('last' if last else 'first', 'earlier' if last else 'later'), idx[0].lineno)
+                continue
+            except _iv.Unknown:
+                pass
         used = set()
         for x in ast.walk(g.node):
             if isinstance(x, ast.Call) and isinstance(x.func, ast.Attribute) and x.func.attr == 'append':
@@ -381,7 +448,14 @@ def _shift_table(rep, hs):
         raise AnalysisError('explanation helper explain_binary vanished')
     rb = [s for s in fb.node.body if isinstance(s, ast.Return)]
     p2 = fb.node.args.args[-1].arg
-    if len(rb) == 1 and isinstance(rb[0].value, ast.Tuple) and [ast.unparse(e) for e in rb[0].value.elts] == [p2, p2]:
+    def _same_intervals(e):
+        # the parameter itself or a container copy of it
+        if isinstance(e, ast.Call) and isinstance(e.func, ast.Name) and e.func.id == 'list' and len(e.args) == 1:
+            e = e.args[0]
+        if isinstance(e, ast.Subscript) and isinstance(e.slice, ast.Slice) and e.slice.lower is None and e.slice.upper is None:
+            e = e.value
+        return ast.unparse(e) == p2
+    if len(rb) == 1 and isinstance(rb[0].value, ast.Tuple) and len(rb[0].value.elts) == 2 and all(_same_intervals(e) for e in rb[0].value.elts):
         rep.ok('R-SHIFT', fb.module.rel, fb.qual, 'explainer:helper:%s' % fb.node.name, 'passes the requested samples on to both operands', fb.node.lineno)
     else:
         rep.fail('R-SHIFT', fb.module.rel, fb.qual, 'explainer:helper:%s' % fb.node.name, 'explain_binary does not hand the requested intervals to both operands', fb.node.lineno)
@@ -473,6 +547,71 @@ def _polarity_choice(fnode):
             b = ast.copy_location(ast.Call(func=sel.orelse, args=c.args, keywords=c.keywords), c)
             return ([a], [b]) if pol(sel.test) else ([b], [a])
     return None
+
+
+def run_extraction(fnode):
+    """a helper that scans `for i in range(lo, hi + 1)` with a two-state machine -- opens a run at the first i with C(signal[i]), closes it at the first
+    i with not C (emitting [start, i-1]) and emits the run still open after the scan as [start, hi] -- selects { i in [lo, hi] : C(signal[i]) }.
+    -> 'ge0' | 'lt0' (the C), or None when the function is not of this shape.  Names are free; the window [lo, hi] is read by ivshift.read_scan_window."""
+    params = [a.arg for a in fnode.args.args]
+    sig = params[0]
+    outer = [s_ for s_ in fnode.body if isinstance(s_, ast.For)]
+    if len(outer) != 1:
+        return None
+    inner = [s_ for s_ in outer[0].body if isinstance(s_, ast.For)]
+    if len(inner) != 1 or not isinstance(inner[0].target, ast.Name):
+        return None
+    i = inner[0].target.id
+    it = inner[0].iter
+    if not (isinstance(it, ast.Call) and isinstance(it.func, ast.Name) and it.func.id == 'range' and len(it.args) == 2):
+        return None
+    hi = it.args[1]
+    hi_last = ast.unparse(hi.left).replace(' ', '') if isinstance(hi, ast.BinOp) and isinstance(hi.op, ast.Add) and isinstance(hi.right, ast.Constant) and hi.right.value == 1 else None
+    if hi_last is None:
+        return None
+
+    def pred(t):
+        if isinstance(t, ast.Compare) and len(t.ops) == 1 and isinstance(t.left, ast.Subscript) and isinstance(t.left.value, ast.Name) and t.left.value.id == sig \
+                and ast.unparse(t.left.slice) == i and isinstance(t.comparators[0], ast.Constant) and t.comparators[0].value == 0:
+            if isinstance(t.ops[0], ast.GtE):
+                return 'ge0'
+            if isinstance(t.ops[0], ast.Lt):
+                return 'lt0'
+        return None
+    if len(inner[0].body) != 1:
+        return None
+    st = inner[0].body[0]
+    if not isinstance(st, ast.If) or len(st.orelse) != 1 or not isinstance(st.orelse[0], ast.If) or st.orelse[0].orelse:
+        return None
+    a, b = st, st.orelse[0]
+    if not (isinstance(a.test, ast.BoolOp) and isinstance(a.test.op, ast.And) and len(a.test.values) == 2 and isinstance(b.test, ast.BoolOp) and isinstance(b.test.op, ast.And)
+            and len(b.test.values) == 2):
+        return None
+    na, ca = a.test.values
+    sb, cb = b.test.values
+    if not (isinstance(na, ast.UnaryOp) and isinstance(na.op, ast.Not) and isinstance(na.operand, ast.Name) and isinstance(sb, ast.Name) and sb.id == na.operand.id):
+        return None
+    state = sb.id
+    p1, p2 = pred(ca), pred(cb)
+    if p1 is None or p2 is None or p1 == p2:
+        return None
+    start = None
+    for x in a.body:
+        if isinstance(x, ast.Assign) and isinstance(x.targets[0], ast.Name) and ast.unparse(x.value) == i:
+            start = x.targets[0].id
+    opens = [ast.unparse(x).replace(' ', '') for x in a.body]
+    closes = [ast.unparse(x).replace(' ', '') for x in b.body]
+    app = [x for x in b.body if isinstance(x, ast.Expr) and isinstance(x.value, ast.Call) and isinstance(x.value.func, ast.Attribute) and x.value.func.attr == 'append']
+    if start is None or '%s=True' % state not in opens or '%s=False' % state not in closes or len(app) != 1 \
+            or ast.unparse(app[0].value.args[0]).replace(' ', '') != '[%s,%s-1]' % (start, i):
+        return None
+    outname = app[0].value.func.value.id
+    tail = [x for x in outer[0].body if isinstance(x, ast.If) and isinstance(x.test, ast.Name) and x.test.id == state]
+    if len(tail) != 1 or ast.unparse(tail[0].body[0]).replace(' ', '') != '%s.append([%s,%s])' % (outname, start, hi_last):
+        return None
+    if not any(isinstance(x, ast.Assign) and ast.unparse(x).replace(' ', '') == '%s=False' % state for x in outer[0].body):
+        return None
+    return p1
 
 
 def selection_of(fnode):
